@@ -48,23 +48,27 @@ type Config struct {
 	// can be crashed (SIGKILL / crash points); leaders stay in-process.
 	ProcFollowers bool
 	NodeBin       string
+	// LeaderMaxFollowQueue, if > 0, is the leaders' MaxFollowQueue (entries queued per follower before
+	// the leader's follow loop blocks); the default is 100000
+	LeaderMaxFollowQueue int
 }
 
 // Node is one server.
 type Node struct {
-	Role      string // leader | follower
-	ID        int
-	Partition int
-	Dir       string
-	Addr      string
-	HTTPSAddr string
-	S         *server.Server
-	DB        *zenodb.DB
-	runErr    chan error
-	cl        *Cluster
-	up        bool
-	mx        sync.Mutex
-	CloseHung bool // a clean stop did not finish within StopTimeout
+	Role         string // leader | follower
+	ID           int
+	Partition    int
+	Dir          string
+	Addr         string
+	HTTPSAddr    string
+	S            *server.Server
+	DB           *zenodb.DB
+	runErr       chan error
+	cl           *Cluster
+	up           bool
+	mx           sync.Mutex
+	CloseHung    bool // a clean stop did not finish within StopTimeout
+	StartupRaces int  // process starts repeated because the node died of the server's start-up race
 	// process mode
 	proc   bool
 	cmd    *exec.Cmd
@@ -191,6 +195,7 @@ func (n *Node) Start() error {
 	}
 	if n.Role == "leader" {
 		s.Passthrough = true
+		s.MaxFollowQueue = c.Cfg.LeaderMaxFollowQueue
 	} else {
 		var addrs, overrides []string
 		for li, l := range c.Leaders {
@@ -243,6 +248,18 @@ func (n *Node) Stop() {
 		fmt.Fprintf(os.Stderr, "VERIF-CLOSE-HUNG %s %d.%d\n", n.Role, n.Partition, n.ID)
 	}
 	n.up = false
+}
+
+// StartupRace recognises, in the output of a dying node, the start-up race of zenodb's server wiring:
+// DBOpts.Follow (server.(*Server).follow) uses s.db, which is only assigned when zenodb.NewDB has returned,
+// while NewDB's own followLeaders goroutine calls it after its start-up wait (5 s, 0.5 s with the scaled
+// timers) - if NewDB is still busy by then (loaded machine) the node dies with a nil pointer dereference.
+// Not one of the listed properties: monitors treat it as "node failed to start" (retry / inconclusive).
+func StartupRace(tail string) string {
+	if strings.Contains(tail, "nil pointer dereference") && strings.Contains(tail, "server.(*Server).follow") {
+		return "start-up race in server.(*Server).follow: s.db still nil when followLeaders called DBOpts.Follow"
+	}
+	return ""
 }
 
 // StopTimeout bounds the wait for a clean stop of an in-process node.
